@@ -199,7 +199,7 @@ def run(tier):
         'sp_preorder; sp_preorder feeds &AC and etree to ?gstrf; ?gstrs(trans, L, U, perm_c, perm_r, B) iff info == 0; B never written '
         'when info != 0. ?gstrs: NOTRANS = scatter by perm_r, L-solves before U-solves with the documented BLAS flags, gather by perm_c; '
         'TRANS/CONJ = scatter by perm_c, sp_?trsv(U,t,N) then sp_?trsv(L,t,U) with t = T (C for CONJ in complex units), gather by perm_r. '
-        'R9: s=d, c=z agreement of the factorization and solve kernels. Each clause is a necessary condition: breaking it gives a wrong X '
+        'Kernel rules (necessary conditions on the numerical updates): accumulating dense kernels start from a cleared scratch vector; in the 2-D panel update every statement touching the parked triangular-solve vectors runs for the same set of segment sizes; ?LUWorkInit, ?SetRWork and ?panel_bmod agree on the tempv layout (maxsuper | rowblk per column, in terms of sp_ienv); every product contributing to a position in the supernodal value block has the leading dimension as a factor. R9: s=d, c=z agreement of the factorization and solve kernels. Each clause is a necessary condition: breaking it gives a wrong X '
         'for any unsymmetric A / non-identity permutation. Does NOT decide the residual bound or the numerical updates themselves.')
     chk.assumptions = ['representative values stand for the classes info in {0, 1..n, >n}, nrhs in {0, >0}', 'no-alias contract between arguments']
     cfgs = ['tested'] if tier == 'quick' else ['tested', 'cblas', 'idx64']
@@ -216,6 +216,7 @@ def run(tier):
             chk.saw(unit='SRC/%sgssv.c' % p, func='SRC/%sgssv.c:%sgssv' % (p, p))
             chk.saw(unit='SRC/%sgstrs.c' % p, func='SRC/%sgstrs.c:%sgstrs' % (p, p))
         kernels.run_basic(chk, 'C01.kern', prog, cfgname, ('solve', 'bmod'), floor_scratch=4 if cfgname != 'cblas' else 20)
+        kernels.run_factor(chk, 'C01.kern', prog, cfgname)
         if n1 < 4 * 24 or n2 < 4 * 3:
             raise AnalysisBroken('C01: %d/%d leaf valuations explored, floors %d/%d' % (n1, n2, 96, 12))
         chk.notes.append('%s: %d leaf valuations of ?gssv, %d of ?gstrs' % (cfgname, n1, n2))
